@@ -894,6 +894,22 @@ func retryOnEmpty(ctx context.Context, w *world, obs *sql.DB, changes []schema.C
 	return tx.Commit() == nil, nil
 }
 
+// ambiguousIndexNames reports whether some table of the realm has two indexes of one name.
+func ambiguousIndexNames(r *schema.Realm) bool {
+	for _, s := range r.Schemas {
+		for _, t := range s.Tables {
+			seen := map[string]bool{}
+			for _, ix := range t.Indexes {
+				if seen[ix.Name] {
+					return true
+				}
+				seen[ix.Name] = true
+			}
+		}
+	}
+	return false
+}
+
 // refsNamesake reports whether some table of s references another table called new_<x> while <x> is
 // a table of s too.
 func refsNamesake(s *Sch) bool {
@@ -1321,6 +1337,14 @@ func checkReverse(ctx context.Context, r *simkit.Run, w *world, obs *sql.DB, pla
 	back := inspectRealm(ctx, drv)
 	fwd, err1 := drv.RealmDiff(start, back, schema.DiffNormalized())
 	bwd, err2 := drv.RealmDiff(back, start, schema.DiffNormalized())
+	// A table that holds two indexes of one name (a constraint's index under its normalised name next
+	// to an index that really has that name: the recorded finding of C03) has no unambiguous
+	// description; which of the two a diff pairs with which depends on their order in the catalog.
+	// For such a start state only the catalog comparison below decides.
+	if ambiguousIndexNames(start) {
+		r.Probe("reverse-compared-by-catalog-only/ambiguous-index-names")
+		fwd, bwd, err1, err2 = nil, nil, nil, nil
+	}
 	if err1 != nil || err2 != nil || len(fwd) > 0 || len(bwd) > 0 {
 		r.Fail(prop, "down", "down-does-not-restore-schema", "step %d: after up then down the schema differs from the start: [%s] / [%s] (%v %v)\nup:\n%s\ndown:\n%s", step, changeKinds(fwd), changeKinds(bwd), err1, err2, planText(plan), strings.Join(rev, ";\n"))
 		return
